@@ -3019,6 +3019,8 @@ static void AssembleFile_InitPass(void) {
     SetFlag(&RelaxedMode, RelaxedName, DefRelaxedMode);
     SetIntConstRelaxedMode(DefRelaxedMode);
     SetFlag(&DottedStructs, DottedStructsName, False);
+    RadixBase    = 10;
+    OutRadixBase = 16;
     SetFlag(&CompMode, CompModeName, DefCompMode);
     strmaxcpy(TmpCompStr, NestMaxName, sizeof(TmpCompStr));
     EnterIntSymbol(&TmpComp, NestMax = DEF_NESTMAX, SegNone, True);
